@@ -435,4 +435,92 @@ theorem offsetFrom_monotone (tr : List (Int × Int)) : ∀ (base : Int),
         exact ⟨by omega, Int.le_refl _⟩
       · rw [if_neg hy]; exact ⟨Int.le_refl _, Int.le_refl _⟩
 
+/-! ### regular tables: a clock set back by `d` seconds is not changed again within `d` seconds before or after -/
+
+/-- the condition along the table; `lo` = instant of the last transition read, `bprev` = offset before it, `base` = offset
+    from it on.  For the next transition `(t, o)`: instants do not decrease (`lo ≤ t`), the drop AT `lo` fits before `t`
+    (`bprev - base ≤ t - lo`: "not changed again within `d` seconds after") and the drop AT `t` fits after `lo`
+    (`base - o ≤ t - lo`: "not changed within `d` seconds before").  For a change forward the two differences are negative
+    and the conditions say nothing beyond the order of the instants. -/
+def regFrom (lo bprev base : Int) : List (Int × Int) → Bool
+  | [] => true
+  | (t, o) :: rest => decide (lo ≤ t) && decide (bprev - base ≤ t - lo) && decide (base - o ≤ t - lo) && regFrom t base o rest
+
+/-- the decidable condition on a zone table: instants in order, and every setting-back of the clock is at most as large as
+    the gaps to the neighbouring transitions (all tables of real zones) -/
+def _root_.EAO.Zone.regular (z : Zone) : Bool :=
+  match z.trans with
+  | [] => true
+  | (t, o) :: rest => regFrom t z.base o rest
+
+/-- one segment: `u` lies in a segment with offset `base` that starts at `lo`; every earlier instant has a wall time below
+    `lo + bprev` and the `bprev - base` seconds before `lo` have offset `bprev`: an instant before `u` with the same or a
+    later wall time forces a second instant with the wall time of `u` -/
+theorem segment_witness (F : Int → Int) (lo bprev base u v : Int) (hu : lo ≤ u) (hFu : F u = base)
+    (hseg : ∀ x, lo ≤ x → x < u → F x = base)
+    (h1 : ∀ x, x < lo → x + F x < lo + bprev) (h2 : ∀ x, lo - (bprev - base) ≤ x → x < lo → F x = bprev)
+    (hvu : v < u) (hw : u + F u ≤ v + F v) : ∃ u', u' ≠ u ∧ u' + F u' = u + F u := by
+  by_cases hv : lo ≤ v
+  · have := hseg v hv hvu
+    omega
+  · have hb := h1 v (by omega)
+    have hF := h2 (u + base - bprev) (by omega) (by omega)
+    exact ⟨u + base - bprev, by omega, by omega⟩
+
+theorem regFrom_core (F : Int → Int) : ∀ (tr : List (Int × Int)) (lo bprev base : Int), regFrom lo bprev base tr = true →
+    (∀ u, lo ≤ u → F u = offsetFrom base tr u) →
+    (∀ x, x < lo → x + F x < lo + bprev) → (∀ x, lo - (bprev - base) ≤ x → x < lo → F x = bprev) →
+    ∀ u v, lo ≤ u → v < u → u + F u ≤ v + F v → ∃ u', u' ≠ u ∧ u' + F u' = u + F u := by
+  intro tr
+  induction tr with
+  | nil =>
+    intro lo bprev base _ hF h1 h2 u v hu hvu hw
+    exact segment_witness F lo bprev base u v hu (by simpa [offsetFrom] using hF u hu)
+      (fun x hx _ => by simpa [offsetFrom] using hF x hx) h1 h2 hvu hw
+  | cons p rest ih =>
+    intro lo bprev base hr hF h1 h2 u v hu hvu hw
+    obtain ⟨t, o⟩ := p
+    simp only [regFrom, Bool.and_eq_true, decide_eq_true_eq] at hr
+    obtain ⟨⟨⟨hlt, hafter⟩, hbefore⟩, hrest⟩ := hr
+    have hlow : ∀ x, lo ≤ x → x < t → F x = base := by
+      intro x hx hxt
+      rw [hF x hx]; simp only [offsetFrom]; rw [if_neg (by omega)]
+    by_cases hut : t ≤ u
+    · refine ih t base o hrest ?_ ?_ ?_ u v hut hvu hw
+      · intro x hx
+        rw [hF x (by omega)]; simp only [offsetFrom]; rw [if_pos hx]
+      · intro x hx
+        by_cases hxl : lo ≤ x
+        · rw [hlow x hxl hx]; omega
+        · have := h1 x (by omega); omega
+      · intro x hx hxt
+        exact hlow x (by omega) hxt
+    · exact segment_witness F lo bprev base u v hu (hlow u hu (by omega))
+        (fun x hx hxu => hlow x hx (by omega)) h1 h2 hvu hw
+
+/-- the order hypothesis holds for every regular table -/
+theorem wallOrder_of_regular' (z : Zone) (hr : z.regular = true) : WallOrder z := by
+  intro u v hw huniq
+  apply Classical.byContradiction
+  intro hlt
+  have hvu : v < u := by omega
+  unfold Zone.regular at hr
+  unfold Zone.wall Zone.offset at hw huniq
+  cases htr : z.trans with
+  | nil =>
+    rw [htr] at hw; simp only [offsetFrom] at hw; omega
+  | cons p rest =>
+    obtain ⟨t, o⟩ := p
+    rw [htr] at hr hw huniq
+    simp only at hr
+    by_cases hut : t ≤ u
+    · obtain ⟨u', hne, heq⟩ := regFrom_core (offsetFrom z.base ((t, o) :: rest)) rest t z.base o hr
+        (fun x hx => by simp only [offsetFrom]; rw [if_pos hx])
+        (fun x hx => by simp only [offsetFrom]; rw [if_neg (by omega)]; omega)
+        (fun x _ hx => by simp only [offsetFrom]; rw [if_neg (by omega)]) u v hut hvu hw
+      exact hne (huniq u' heq)
+    · simp only [offsetFrom] at hw
+      rw [if_neg hut, if_neg (by omega)] at hw
+      omega
+
 end EAO.DstGrid
